@@ -25,7 +25,7 @@ func init() {
 		Batches:     tiered(144, 3200),
 		Run:         runC17,
 		Race:        true,
-		Timeout:     timeoutFor(10*time.Minute, 45*time.Minute),
+		Timeout:     timeoutFor(3*time.Minute, 45*time.Minute),
 	})
 }
 
